@@ -1,6 +1,7 @@
 """C17 — Measurement helpers sample on the documented cadence and report true averages."""
 from checks import pure_fns
 from checks import api_cov
+from checks import scale_inv
 LEAN_TARGETS = ["QmcProps.C17", "drv_c17"]
 BINS = ["c17"]
 
@@ -65,4 +66,5 @@ def main(ck):
         "thread scheduling of rayon is modelled as an arbitrary schedule of per-replica single steps; the real parallel driver is observed, not verified",
     ]
     api_cov.run(ck, "c17")   # otherwise unexercised public API, model-free oracles of this property
+    scale_inv.run(ck, "c17")   # power-of-two unit change: identical trajectory, energies exactly scaled (model-free twin oracle)
     return ck.finish(RULE)
